@@ -24,6 +24,12 @@ func checkC03(r *Report, p *Program) {
 	if co := fn(r, p, "R03.7", "third_party/kubernetes.BaseControllerRefManager.ClaimObject"); co != nil {
 		claimTable(r, p, "R03.7", co, true)
 	}
+	// the observed set handed to the hook: the decorator's ownership/marker filter, and the
+	// claimed set being what ManageChildren and the hook receive (shared with C02)
+	r02_4(r, p, computeChildRoles(p))
+	adoptAlwaysWrites(r, p, "R03.8")
+	// objects listed for a declared child type come from an informer of exactly that resource and version
+	keyCompleteness(r, p, "R03.9", "informer.resourceKey")
 }
 
 func r03_1(r *Report, p *Program) {
@@ -325,7 +331,9 @@ func r03_6(r *Report, p *Program) {
 				}
 			}
 		}
-		conv := func(fld string) string { return "call(controller/common/api/v2.UniformObjectMap.Convert)(p0." + fld + ", p0.parent)" }
+		conv := func(fld string) string {
+			return "call(controller/common/api/v2.UniformObjectMap.Convert)(p0." + fld + ", p0.parent)"
+		}
 		ch := got["Children"]
 		if ch == "" {
 			ch = got["Attachments"]
